@@ -1,26 +1,28 @@
 import TlsProofs.Conc
 /-
   C18 — serial executions of operations that keep an invariant of the shared object and are
-  correct whenever the invariant holds (used for the RSA blinding pair).
+  correct whenever the invariant holds (used for the RSA blinding pair).  `ω` is the type of a
+  call's arguments, `ok` a precondition on them.
 -/
 namespace Tls.Conc
 
-variable {σ ρ : Type}
+variable {σ ρ ω : Type}
 
-structure InvHist (res : ρ → List Nat) (sem : Nat → List (Act σ ρ)) (correct : Nat → Nat)
-    (T : Nat → List Nat) (good : σ → Prop) (s : SCfg σ ρ) : Prop where
+structure InvHist (res : ρ → List Nat) (sem : ω → List (Act σ ρ)) (correct : ω → Nat)
+    (ok : ω → Prop) (T : Nat → List ω) (good : σ → Prop) (s : SCfg σ ρ) : Prop where
   good : good s.sh
-  rem : ∃ rem : Nat → List Nat, (∀ t, (s.th t).ops = (rem t).map sem) ∧
+  rem : ∃ rem : Nat → List ω, (∀ t, (s.th t).ops = (rem t).map sem) ∧
+          (∀ t, ∀ o ∈ rem t, ok o) ∧
           ∀ t, res (s.th t).loc ++ (rem t).map correct = (T t).map correct
 
-theorem invHist_step (res : ρ → List Nat) (sem : Nat → List (Act σ ρ)) (correct : Nat → Nat)
-    (T : Nat → List Nat) (good : σ → Prop) (stepR : Nat → σ → σ × Nat)
-    (hgood : ∀ m s, good s → good (stepR m s).1 ∧ (stepR m s).2 = correct m)
-    (hseq : ∀ m s l, (runActs (sem m) (s, l)).1 = (stepR m s).1 ∧
-                     res (runActs (sem m) (s, l)).2 = res l ++ [(stepR m s).2])
-    (s : SCfg σ ρ) (h : InvHist res sem correct T good s) (t : Nat) :
-    InvHist res sem correct T good (serialStep s t) := by
-  obtain ⟨rem, hrem, hT⟩ := h.rem
+theorem invHist_step (res : ρ → List Nat) (sem : ω → List (Act σ ρ)) (correct : ω → Nat)
+    (ok : ω → Prop) (T : Nat → List ω) (good : σ → Prop) (stepR : ω → σ → σ × Nat)
+    (hgood : ∀ o s, ok o → good s → good (stepR o s).1 ∧ (stepR o s).2 = correct o)
+    (hseq : ∀ o s l, (runActs (sem o) (s, l)).1 = (stepR o s).1 ∧
+                     res (runActs (sem o) (s, l)).2 = res l ++ [(stepR o s).2])
+    (s : SCfg σ ρ) (h : InvHist res sem correct ok T good s) (t : Nat) :
+    InvHist res sem correct ok T good (serialStep s t) := by
+  obtain ⟨rem, hrem, hok, hT⟩ := h.rem
   cases hr : rem t with
   | nil =>
     have : (s.th t).ops = [] := by rw [hrem t, hr]; rfl
@@ -29,7 +31,7 @@ theorem invHist_step (res : ρ → List Nat) (sem : Nat → List (Act σ ρ)) (c
   | cons m rest =>
     have hops : (s.th t).ops = sem m :: rest.map sem := by rw [hrem t, hr]; rfl
     obtain ⟨hsh, hres⟩ := hseq m s.sh (s.th t).loc
-    obtain ⟨hg, hc⟩ := hgood m s.sh h.good
+    obtain ⟨hg, hc⟩ := hgood m s.sh (hok t m (by rw [hr]; simp)) h.good
     have hstep : serialStep s t =
         { sh := (runActs (sem m) (s.sh, (s.th t).loc)).1,
           th := setTh s.th t ⟨(runActs (sem m) (s.sh, (s.th t).loc)).2, rest.map sem⟩ } := by
@@ -38,11 +40,18 @@ theorem invHist_step (res : ρ → List Nat) (sem : Nat → List (Act σ ρ)) (c
     constructor
     · show good (runActs (sem m) (s.sh, (s.th t).loc)).1
       rw [hsh]; exact hg
-    · refine ⟨fun u => if u = t then rest else rem u, ?_, ?_⟩
+    · refine ⟨fun u => if u = t then rest else rem u, ?_, ?_, ?_⟩
       · intro u
         by_cases hu : u = t
         · subst hu; simp [setTh]
         · simp [setTh, hu, hrem u]
+      · intro u o ho
+        by_cases hu : u = t
+        · subst hu
+          simp only [if_true] at ho
+          exact hok u o (by rw [hr]; simp [ho])
+        · simp only [hu, if_false] at ho
+          exact hok u o ho
       · intro u
         by_cases hu : u = t
         · subst hu
@@ -52,17 +61,17 @@ theorem invHist_step (res : ρ → List Nat) (sem : Nat → List (Act σ ρ)) (c
         · simp only [setTh, hu, if_false]
           exact hT u
 
-theorem invHist_run (res : ρ → List Nat) (sem : Nat → List (Act σ ρ)) (correct : Nat → Nat)
-    (T : Nat → List Nat) (good : σ → Prop) (stepR : Nat → σ → σ × Nat)
-    (hgood : ∀ m s, good s → good (stepR m s).1 ∧ (stepR m s).2 = correct m)
-    (hseq : ∀ m s l, (runActs (sem m) (s, l)).1 = (stepR m s).1 ∧
-                     res (runActs (sem m) (s, l)).2 = res l ++ [(stepR m s).2])
-    (order : List Nat) : ∀ (s : SCfg σ ρ), InvHist res sem correct T good s →
-      InvHist res sem correct T good (serialRun order s) := by
+theorem invHist_run (res : ρ → List Nat) (sem : ω → List (Act σ ρ)) (correct : ω → Nat)
+    (ok : ω → Prop) (T : Nat → List ω) (good : σ → Prop) (stepR : ω → σ → σ × Nat)
+    (hgood : ∀ o s, ok o → good s → good (stepR o s).1 ∧ (stepR o s).2 = correct o)
+    (hseq : ∀ o s l, (runActs (sem o) (s, l)).1 = (stepR o s).1 ∧
+                     res (runActs (sem o) (s, l)).2 = res l ++ [(stepR o s).2])
+    (order : List Nat) : ∀ (s : SCfg σ ρ), InvHist res sem correct ok T good s →
+      InvHist res sem correct ok T good (serialRun order s) := by
   induction order with
   | nil => intro s h; exact h
   | cons t order ih =>
     intro s h
-    exact ih (serialStep s t) (invHist_step res sem correct T good stepR hgood hseq s h t)
+    exact ih (serialStep s t) (invHist_step res sem correct ok T good stepR hgood hseq s h t)
 
 end Tls.Conc
